@@ -116,8 +116,8 @@ EXTRA_TEXT = {
     "C06": " Programs contain single gets, partial scans and read / write / read motifs; half of the cases run without the sweep of reads between operations; the base is a user-supplied store that keeps empty values. Towers of 20 to 48 caches nested in one another and programs of 130 to 220 operations in one layer are part of the workload.",
     "C11": " A registry-scale pass stores 66 000 codes (thorough: 70 000) and instantiates hundreds (thorough: 66 000) of contracts: ids consecutive, sampled ids around the byte and two-byte boundaries answer with their own checksum / creator / code, every instance has the derived address, all addresses distinct, every instance keeps its own record.",
     "C04": " Includes event types that already start with wasm- or equal entry-point names and data that is itself an encoded execute / instantiate response.",
-    "C05": " Histories also run on chains built with MockApiBech32 / MockApiBech32m and with respelled addresses (rejected by every codec); signers include non-addresses such as the empty string. After set_block / update_block the application's block equals the block that was set (also a lower height).",
-    "C07": " Several operations on one held view object (mutable and read-only, incl. redundant writes) are compared read by read; range_keys / range_values are projections of range. The base is a user-supplied store that keeps empty values, which views hand through.",
+    "C05": " Plain-address chains also use a stateful address generator (asked once per instantiation, its counter rolled back with the transaction). Histories also run on chains built with MockApiBech32 / MockApiBech32m and with respelled addresses (rejected by every codec); signers include non-addresses such as the empty string. After set_block / update_block the application's block equals the block that was set (also a lower height).",
+    "C07": " Read-only views reject writes also when the value written is the one already there. Several operations on one held view object (mutable and read-only, incl. redundant writes) are compared read by read; range_keys / range_values are projections of range. The base is a user-supplied store that keeps empty values, which views hand through.",
     "C08": " Own storage iterated in descending order at entry and after the call's own writes equals the model; writes and removals through App::contract_storage_mut land in that contract's key space only. Some histories run on a chain with a user-written codec for plain case-sensitive addresses whose address generator names contracts Vault, vault, VAULT, vault/, vaul, ... : each is a contract of its own.",
     "C09": " Denominations include near misses of one another (other letter case, a prefix, an extension): each is a denomination of its own. One history in eight runs on a chain with plain case-sensitive addresses (accounts Alice, alice, ALICE, alic, a relay contract Vault next to an account vault). Sends also go through the bank keeper directly without a transaction; half of the histories observe sparsely; one in ten has amounts that add up beyond 128 bits across denominations.",
     "C15": " A reward period that starts where nothing was staked before starts with nothing credited (a delegator that leaves a validator altogether and comes back does not find its old rewards); annual rates above 100 % are part of the parameter pool.",
